@@ -250,6 +250,7 @@ static inline void myth_tls_key_allocator_init(myth_tls_key_allocator_t * s) {
   }
   s->keys[myth_tls_n_keys - 1].next = 0;
   s->free = &s->keys[0];
+  myth_spin_init_body(&s->pop_lock);
 }
 
 static inline void myth_tls_key_allocator_fini(myth_tls_key_allocator_t * s) {
@@ -269,6 +270,12 @@ static inline void myth_tls_fini() {
 static inline int
 myth_tls_key_allocator_alloc(myth_tls_key_allocator_t * s,
 			     myth_tls_destructor_fun_t destructor) {
+  /* pops are serialized: with concurrent pops, a cell could be popped, its
+     successor popped too, and the cell pushed back (key deleted) between
+     the read of ke->next and the CAS below, which would then install a
+     stale successor (ABA). concurrent pushes (key deletions) are harmless:
+     they only make the CAS fail. */
+  myth_spin_lock_body(&s->pop_lock);
   while (1) {
     /* try to pull the element from the free list */
     myth_tls_key_entry_t * ke = s->free;
@@ -278,9 +285,11 @@ myth_tls_key_allocator_alloc(myth_tls_key_allocator_t * s,
 	/* mark the key as used */
 	ke->next = (myth_tls_key_entry_t *)-1;
 	ke->destructor = destructor;
+	myth_spin_unlock_body(&s->pop_lock);
 	return ke - s->keys;
       }
     } else {
+      myth_spin_unlock_body(&s->pop_lock);
       return -1;
     }
   }
